@@ -8,11 +8,12 @@ integration of the boundary-value problem (no shooting, no layer propagator).
 ID = "C01"
 LEVEL = "exploration"
 RULE = (
-    "closed-form smooth positive families {log-law, power-law, MOST+- wind} x {linear, power-law, MOST diffusivity} x anisotropy ax, ay in "
+    "(i) closed-form smooth positive families {log-law, power-law, MOST+- wind} x {linear, power-law, MOST diffusivity} x anisotropy ax, ay in "
     "[0.3,3] x any wind direction x grids {uniform, geometric, exp-map} x n0 in {8,16,32} refined x4 (thorough also x16) x nx, ny in 6..12 "
     "x domains; every non-mean, off-Nyquist mode resolved on the coarsest grid (|T|dz^2/Kz <= 1) with shooting growth <= 18 is compared "
     "at bottom / interior / top levels.  Decision: E(n) <= 2 delta(n) at every level of refinement and E(4n) <= max(E(n)/2.5, 0.1 "
-    "delta(4n)), delta = max dz_i/z_i.  non-trivial = case with >= 4 qualifying modes; distinct = distinct case idx"
+    "delta(4n)), delta = max dz_i/z_i.  (ii) the arrays produced by vertical_profiles(MOST/MOSTM/OAAHOC) on its own exp-mapped grid at n and 4n layers, continuous counterpart "
+    "rebuilt from the returned z[0] and the harness's similarity formulas, top node per grid.  non-trivial = case with >= 4 qualifying modes; distinct = distinct case idx"
 )
 ASSUMPTIONS = [
     "oracle: SciPy DOP853 integration of the Riccati equation for the admittance and of d ln p/dz, rtol 1e-11; self-tested per shard on "
@@ -26,7 +27,102 @@ _selftest = {}
 
 def cases(tier, seed):
     n = 192 if tier == "quick" else 9600
-    return [{"seed": seed, "idx": i, "deep": bool(tier == "thorough" and i % 8 == 0)} for i in range(n)]
+    out = [{"seed": seed, "idx": i, "deep": bool(tier == "thorough" and i % 8 == 0)} for i in range(n)]
+    out += [{"seed": seed, "idx": i, "closure": True} for i in range(n // 4)]
+    return out
+
+
+def closure_case(case, rng, zm):
+    """Arrays produced by vertical_profiles(MOST / MOSTM / OAAHOC) on its own exp-mapped grid; the continuous counterpart is rebuilt
+    from the returned z[0] and the harness's similarity formulas; the top node (and with it the BVP) is taken per grid."""
+    import math
+
+    import numpy as np
+    from bldfm.pbl_model import vertical_profiles
+    from vlib import gen, solve, oracles
+
+    S = solve.S()
+    closure = str(rng.choice(["MOST", "MOSTM", "OAAHOC"]))
+    ws = float(rng.uniform(2.0, 8.0))
+    th = float(rng.uniform(0, 2 * np.pi))
+    um, vm = ws * math.cos(th), ws * math.sin(th)
+    ustar = float(ws * rng.uniform(0.08, 0.14))
+    L = float(rng.choice([-1, 1]) * 10 ** rng.uniform(1.7, 3.5))
+    tke = float(rng.uniform(0.5, 2.0))
+    n0 = int(rng.choice([8, 16]))
+    nx, ny = int(rng.integers(3, 6)) * 2, int(rng.integers(3, 6)) * 2
+    dx = float(zm * rng.uniform(1.5, 6.0))
+    dy = float(dx * rng.choice([0.6, 0.75, 1.5]))
+    dom = (nx * dx, ny * dy)
+    KX, KY, ok = oracles.mode_wavenumbers(nx, ny, dx, dy)
+    kw = dict(ustar=ustar, mol=L, closure=closure)
+    if closure == "OAAHOC":
+        kw["tke"] = tke
+    cl, cm, ch = 0.845, 0.0856, 0.204
+    Es, deltas, good, kxs, kys = [], [], None, None, None
+    q0 = np.zeros((ny, nx))
+    q0[0, 0] = 1.0
+    for mult in (1, 4):
+        n = n0 * mult
+        with np.errstate(all="ignore"):
+            z, prof = vertical_profiles(n, zm, (um, vm), **kw)
+        z = np.asarray(z, dtype=float)
+        prof = tuple(np.asarray(p, dtype=float) for p in prof)
+        if len(z) <= n or not np.all(np.isfinite(z)) or not (z[0] < 0.2 * zm) or z[0] < 1e-4 * zm:
+            return {"evals": 0, "nontrivial": False, "skipped": "derived roughness length outside (1e-4, 0.2) z_m"}
+        z0 = float(z[0])
+
+        def fam(zz, z0=z0):
+            zz = np.asarray(zz, dtype=float)
+            if closure == "OAAHOC":
+                U = ustar**2 / (cm * cl * math.sqrt(tke)) * np.log(zz / z0)
+                K = ch * cl * zz * math.sqrt(tke)
+            else:
+                U = ustar / gen.KAPPA * (np.log(zz / z0) + gen.psi_m(zz / L))
+                K = gen.KAPPA * ustar * zz / gen.phi_c(zz / L)
+            uu, vv = U * um / ws, U * vm / ws
+            if closure == "MOSTM":
+                return (uu, vv, K * vm**2 / ws**2, K * um**2 / ws**2, K)
+            return (uu, vv, K, K, K)
+
+        if good is None:
+            u_, v_, Kx_, Ky_, Kz_ = prof
+            dz = np.diff(z)
+            kxa, kya = KX[ok], KY[ok]
+            T = -(Kx_[:-1, None] * kxa**2 + Ky_[:-1, None] * kya**2) - 1j * (u_[:-1, None] * kxa + v_[:-1, None] * kya)
+            res = np.max(np.abs(T) * (dz**2 / Kz_[:-1])[:, None], axis=0)
+            G = np.sum(np.sqrt(-T / Kz_[:-1, None]).real * dz[:, None], axis=0)
+            good = (res <= 1.0) & (G <= 18.0)
+            if int(good.sum()) < 4:
+                return {"evals": 0, "nontrivial": False, "skipped": "fewer than 4 modes resolved on the coarsest grid"}
+            kxs, kys = kxa[good], kya[good]
+        lv = [0, n, len(z) - 1]  # surface, measurement height, top node
+        ref = oracles.riccati_bvp(fam, kxs, kys, z0, float(z[-1]), z[lv])
+        _, c, f = S(q0, z, prof, dom, lv, modes=(nx, ny), halo=0.0, precision="double")
+        Hp = (np.fft.fft2(c, norm="forward") * (nx * ny))[:, ok][:, good]
+        Hq = (np.fft.fft2(f, norm="forward") * (nx * ny))[:, ok][:, good]
+        Ep = float(np.max(np.abs(Hp - ref[0]) / np.abs(ref[0][0])[None, :]))
+        Eq = float(np.max(np.abs(Hq - ref[1])))
+        Es.append((Ep, Eq))
+        deltas.append(float(np.max(np.diff(z) / z[:-1])))
+    viol, resid = [], {}
+    ctx = dict(family={"closure": closure, "ws": ws, "theta": th, "ustar": ustar, "L": L, "tke": tke, "zm": zm}, grid="vertical_profiles", n0=n0,
+               nx=nx, ny=ny, dx=dx, dy=dy, modes=int(good.sum()), errors=Es, deltas=deltas)
+    for k, ((Ep, Eq), d) in enumerate(zip(Es, deltas)):
+        resid["E_over_delta_conc_closure"] = max(resid.get("E_over_delta_conc_closure", 0.0), Ep / d)
+        resid["E_over_delta_flux_closure"] = max(resid.get("E_over_delta_flux_closure", 0.0), Eq / d)
+        if Ep > 2 * d or Eq > 2 * d:
+            viol.append(dict(what="error_not_a_small_multiple_of_layer_thickness", refinement=k, E=(Ep, Eq), delta=d, **ctx))
+    for nm, j in (("conc", 0), ("flux", 1)):
+        a_, b_ = Es[0][j], Es[1][j]
+        if b_ > max(a_ / 2.5, 0.1 * deltas[1]):
+            viol.append(dict(what="error_does_not_shrink_with_layer_thickness", field=nm, coarse=a_, fine=b_, **ctx))
+        if b_ > 0.1 * deltas[1] and a_ > 0:
+            resid[f"fine_over_coarse_{nm}_closure"] = b_ / a_
+    return {"evals": 2 * int(good.sum()) * 3 * 2, "nontrivial": True, "sig": f"closure|{case['idx']}",
+            "buckets": {f"closure_arrays:{closure}": 1, f"n0:{n0}": 1}, "resid": resid,
+            "counters": {"solver_calls": 2, "riccati_integrations": 2, "modes_compared": int(good.sum()), "vertical_profiles_calls": 2},
+            "violations": viol, "sample": ctx}
 
 
 def worker_init():
@@ -53,6 +149,8 @@ def run_case(case):
             break
     gridk = str(rng.choice(["uniform", "geometric", "expmap"]))
     n0 = int(rng.choice([8, 16, 32]))
+    if case.get("closure"):
+        return closure_case(case, rng, zm)
     nx, ny = int(rng.integers(3, 7)) * 2, int(rng.integers(3, 7)) * 2
     ztop = float(zm * rng.uniform(1.0, 2.0))
     dx = float(zm * rng.uniform(0.8, 6.0))
